@@ -40,11 +40,29 @@ def plan(tier, seed):
                'cap': 160 if tier == 'quick' else 600} for p in range(6)]
     # cold-start: switch at the first hit of the d-th distinct anchor location of the first user of each version
     # (about 125 distinct locations on this tree); thorough adds switches at later occurrences (j-th anchor event)
-    D = 140
-    specs += [{'kind': 'cold', 'part': p, 'ds': list(range(1 + p, D + 1, 14)), 'js': []} for p in range(14)]
+    D = measure_distinct_anchor_locations() + 6
+    specs += [{'kind': 'cold', 'part': p, 'ds': list(range(1 + p, D + 1, 14)), 'js': [], 'D': D} for p in range(14)]
     if tier == 'thorough':
         specs += [{'kind': 'cold', 'part': 14 + p, 'ds': [], 'js': list(range(1 + p, 3600, 16 * 9))} for p in range(16)]
     return specs
+
+
+def measure_distinct_anchor_locations():
+    """one unscheduled cold run on the tree under test: how many distinct anchor locations does the first user of a version
+    pass through?  (the cold schedules enumerate a hand-over at the first hit of each of them)"""
+    work = os.path.join(env.WORK, 'c19-measure-%d' % os.getpid())
+    os.makedirs(work, exist_ok=True)
+    try:
+        sp, op = os.path.join(work, 'spec.json'), os.path.join(work, 'out.json')
+        json.dump({'versions': ['2.5', '2.8.2', '2.1']}, open(sp, 'w'))
+        subprocess.run([env.PYTHON, '-m', 'hl7mon.props.c19', '--cold', sp, op], env=env.child_env(), cwd=env.VERIF,
+                       timeout=300, stdout=subprocess.PIPE, stderr=subprocess.PIPE)
+        return max(r['distinct_anchor_locations'] for r in json.load(open(op)))
+    except Exception:
+        return 160
+    finally:
+        import shutil
+        shutil.rmtree(work, ignore_errors=True)
 
 
 def outcome(fn):
@@ -323,7 +341,9 @@ def run_cold(spec, rec):
         import shutil
         shutil.rmtree(work, ignore_errors=True)
     rec.count('interleavings_distinct', len(traces))
-    rec.sample({'kind': 'cold', 'js': spec['js'][:4], 'versions_per_process': len(vs)})
+    rec.extra['distinct_anchor_locations_planned'] = spec.get('D')
+    rec.sample({'kind': 'cold', 'ds': spec.get('ds', [])[:4], 'js': spec['js'][:4], 'versions_per_process': len(vs),
+                'distinct_anchor_locations_enumerated': spec.get('D')})
 
 
 def run_shard(spec, rec):
